@@ -31,7 +31,7 @@ META = {
                   "many literals, Foreign C imports from two overlapping header sets, a user of one header, assertions/piles/"
                   "directory directives with sensors in every other file, diagnostics); quick realises all 72 two-file batches "
                   "(every kind directly before every kind, the same file twice, two files of a kind) and a seeded sample of longer "
-                  "ones, thorough all 3-file batches and 700 4-file ones; per output 3-7 projections (c: #include lines, "
+                  "ones, thorough all 704 3-file batches and 400 4-file ones; per output 3-7 projections (c: #include lines, "
                   "declarations, structs, functions, literals, canonical token text, gcc -fsyntax-only; fm/lsp: tags, globals, "
                   "constants, formats, literals, progs, canonical form; java: imports, members, literals, canonical text; ao: "
                   "section table, identity sections, code-section sizes) are observed in the baseline and in every batched run.",
